@@ -1049,6 +1049,27 @@ def check_C08(cx):
                     return o
                 hists.append(twin(ops_for))
                 meta.append(("far-offset", k, warm, mode))
+    # (d) a call that makes the buffer grow and THEN fails on a later line (plain, fitting, counting with and without a usable chunk
+    # size): the instance stays usable — the code in front of the call is intact and the next call appends, exactly as on a caller buffer
+    for mi, mode in enumerate(("plain", "fit9", "count16", "count1")):
+        for nl in ((2100, 4100) if cx.tier == "quick" else (2100, 4100, 6100, 9000)):
+            for pre in (0, 1):
+                body = b"add rax, rbx\n" * nl + b"bogus rax\nret\n"
+
+                def ops_for(i, mode=mode, body=body, pre=pre):
+                    o = []
+                    if pre:
+                        o.append("A %d %s" % (i, cases.hexs(b"mov rax, 0x1234\nret")))
+                    if mode.startswith("fit"):
+                        o.append("K %d %s" % (i, mode[3:]))
+                    if mode.startswith("count"):
+                        o.append("C %d %s %s 1" % (i, mode[5:], cases.hexs(body)))
+                    else:
+                        o.append("A %d %s" % (i, cases.hexs(body)))
+                    o += ["G %d" % i, "D %d 0 40" % i, "A %d %s" % (i, cases.hexs(b"mov rax, 0x1122334455667788\nret")), "G %d" % i, "D %d 0 40" % i]
+                    return o
+                hists.append(twin(ops_for))
+                meta.append(("fail-after-growth", nl, pre, mode))
     ops, out = tie_api_mod_lf(cx, impl, hists, "C08 internal buffer vs large caller buffer")
     # failing-input search when the recorded length of a library-managed buffer is not the model's: a length that drifts from the mapping
     # shows as a refused or crashing growth once the program is long enough — programs of 120 kB, 420 kB and 1.2 MB of code
@@ -1173,6 +1194,28 @@ def check_C15(cx):
             h, tl, ne = build(seq, settings[si] if len(hists) % 2 else None, fin, k)
             hists.append(h)
             meta.append((tl, ne))
+    # the SAME option-sensitive text before and after an option change (whatever an instance remembers about a line it has seen —
+    # a parse cache, a memo of the last record — was computed under the old options): assembled / counted, a failing call or
+    # another instance in between, then the options are set anew and the text comes again, also in another spelling
+    sens = [b"mov rax, 0x1", b"lea r15, [rax+rsp]", b"lea r15, [2*rax]", b"mov rcx, 0x00000000ffffffff", b"vaddpd ymm1, ymm2, [1*rsp+8]"]
+    states = [(0, 0, 0), (1, 1, 1), (2, 1, 1), (1, 0, 1), (0, 1, 0)]
+    for ti, t in enumerate(sens):
+        for bi, before in enumerate(states):
+            for ai, after in enumerate(states):
+                if before == after or (cx.tier == "quick" and (ti + bi + ai) % 2):
+                    continue
+                for variant in range(3):
+                    seq = ["S mov %d" % before[0], "S swap %d" % before[1], "S nobase %d" % before[2]]
+                    first = [b"nop\n" + t, t, b"ret\n" + t + b"\n"][variant]
+                    seq.append(("A %s" if (ti + variant) % 2 == 0 else "C 4 %s 1") % cases.hexs(first))
+                    if variant == 1:
+                        seq.append("A %s" % cases.hexs(b"mov rax, \x80"))      # fails in the character filter: nothing is parsed
+                    if variant == 2:
+                        seq.append("OTHER")
+                    again = [t, t.upper().replace(b"0X", b"0x").replace(b",", b" ,  "), b"; c\nl1:\n" + t + b" ; again\nret"][variant]
+                    h, tl, ne = build(seq, (after[0], after[1], after[2], 0), ("A", again), [0, 3, 17][variant])
+                    hists.append(h)
+                    meta.append((tl, ne))
     nex = len(hists)
     for _ in range(300 if cx.tier == "quick" else 3000):
         seq = [r.choice(alphabet) for _ in range(r.choice([4, 6, 10]))]
@@ -1862,6 +1905,10 @@ def check_C11(cx):
                 elif sc == 2:
                     eq = "[%s+1*%s%s]" % (i, i, dtxt(d))
                 shapes.append(("[%d*%s%s]" % (sc, i, dtxt(d)), "C", (None, i, sc, d or 0) if i in REGNUM and i in cases.GPR64 else None, eq))
+    # a lone unscaled stack pointer `[1*rsp+d]`: both SIB options look at it (no base AND a stack-pointer index); with the swap option
+    # NASM the encoded address is the written one whatever the no-base option says (class "S": executed under 14, 6 and 4)
+    for d in disps:
+        shapes.append(("[1*rsp%s]" % dtxt(d), "S", (None, "rsp", 1, d or 0), None))
     for b in ["rax", "rbp", "r12", "r13"]:
         for i in ["rcx", "rbp", "r12", "r13"]:
             for sc in (1, 2, 8):
@@ -1981,7 +2028,7 @@ def check_C11(cx):
                 pre, uses_rsp, exp = exec_program(parts[0], parts[1], parts[2], parts[3], vals)
                 prog = pre + ["lea rax, %s" % shape] + (["sub rax, rsp"] if uses_rsp else []) + \
                     ["pop r15", "pop r14", "pop r13", "pop r12", "pop rbp", "pop rbx", "ret"]
-                for o in ((14, 12) if cls != "N" else (14, 0)):
+                for o in ({"B": (14, 12, 6), "C": (14, 12, 10), "S": (14, 6, 4)}.get(cls, (14, 0))):
                     xprogs.append((l, o, "\n".join(prog).encode(), exp))
     cx.dist["sib_checks"] = nsib
     xops = []
@@ -2175,6 +2222,11 @@ def check_enc(cx):
         return finish(cx, "")
     items = enum_family(cfg["fam"], cfg["level"][0 if quick else 1])
     if cx.prop == "C01":
+        # the family of the kernel-checked theorem C01.every_register_form (list-level texts) is the family run here, text by text
+        rc_k, out_k, err_k = alv.run_driver(alv.driver_path(), ["KF"])
+        kf = out_k[0].split() if rc_k == 0 and out_k else []
+        cx.oblige("the family of the kernel-checked theorem is the family run on the C code (driver op KF: %s)" % " ".join(kf),
+                  len(kf) == 3 and kf[0] == kf[1] and int(kf[0]) > 50000 and kf[2] == "same", err_k[-300:])
         items.update(nop_items())
     cx.oblige("quantifier domain enumerated from the reference opcode table (%d distinct lines)" % len(items), len(items) > 100)
     sup = supported_forms()
@@ -2291,7 +2343,15 @@ def check_enc(cx):
     for o in opts:
         stream += ["S 0 mov %d" % (o % 4), "S 0 swap %d" % (o // 4 % 2), "S 0 nobase %d" % (o // 8 % 2)]
         for g_, ts in bygroup.items():
-            for t in ts[:2]:
+            # two lines per group, plus one line for every further length of the emitted code (disp8 / disp32 / imm8 / imm32 / imm64 and
+            # prefix variants differ in length): the record of EVERY encoding shape is assembled twice
+            pick, lens_seen = list(ts[:2]), set()
+            for t in ts[2:]:
+                rc_, b_ = res.get((o, t.encode()), ("1", "-"))
+                if rc_ == "0" and b_ != "-" and len(b_) not in lens_seen and len(pick) < 10:
+                    lens_seen.add(len(b_))
+                    pick.append(t)
+            for t in pick:
                 rc, b = res[(o, t.encode())]
                 if rc == "0" and b != "-" and 2 <= len(b) // 2 <= 15:
                     expect.append((len(stream) + 3, o, t, b))
@@ -2304,9 +2364,43 @@ def check_enc(cx):
     cx.oblige("correspondence %s family assembled a second time after padding (chunk size 16, offset 15): %d lines" % (cx.prop, len(expect)),
               not mism2 and not crash2, json.dumps(mism2[:3]))
     for idx, o, t, b in expect:
-        if idx < len(out2) and out2[idx] != "90" + b:
+        # (the bytes behind the instruction may be left over from an earlier line of this stream: the offset the call returns counts too)
+        if idx < len(out2) and (out2[idx] != "90" + b or out2[idx - 1] != "0 %d" % (16 + len(b) // 2)):
             groups.setdefault((items[t].split()[0], pattern_of(items[t]), "second assembly after padding differs"), []).append(
-                (t, o, out2[idx], "assembled once: " + b))
+                (t, o, out2[idx] + " (call returns " + out2[idx - 1] + ")", "assembled once: " + b))
+    # the family in ONE call: programs of 40 accepted lines (seeded order) must give the concatenation of the lines' own code — whatever
+    # a call carries from line to line (a record that is not rebuilt, a lookup hint, a VEX field) shows here and not in a single line
+    rr = random.Random(cx.seed * 7919 + 5)
+    for o in opts:
+        acc_l = [t for t in texts if res.get((o, t.encode()), ("1", "-"))[0] == "0" and res[(o, t.encode())][1] != "-"]
+        rr.shuffle(acc_l)
+        ngroups = min(len(acc_l) // 40, 400 if quick else 4000)
+        pstream, pexp = ["N 0 4096 cc", "S 0 mov %d" % (o % 4), "S 0 swap %d" % (o // 4 % 2), "S 0 nobase %d" % (o // 8 % 2)], []
+        for gi in range(ngroups):
+            grp = acc_l[gi * 40:(gi + 1) * 40]
+            code = "".join(res[(o, t.encode())][1] for t in grp)
+            pexp.append((len(pstream) + 1, grp, code))
+            pstream += ["O 0 0", "A 0 %s" % cases.hexs("\n".join(grp).encode()), "D 0 0 %d" % (len(code) // 2)]
+        if not pexp:
+            continue
+        try:
+            pout = run_impl(impl, pstream)
+        except ImplCrash as e:
+            cx.violations.append({"kind": "crash", "op": e.op[:300], "stderr": e.err[-800:], "what": "a program of 40 family lines in one call"})
+            continue
+        for idx, grp, code in pexp:
+            if idx + 1 < len(pout) and (pout[idx].split()[0] != "0" or pout[idx + 1] != code):
+                # find the first line whose code differs
+                got, pos_, badline = pout[idx + 1], 0, None
+                for t in grp:
+                    b = res[(o, t.encode())][1]
+                    if got[pos_:pos_ + len(b)] != b:
+                        badline = t
+                        break
+                    pos_ += len(b)
+                groups.setdefault(((badline or grp[0]).split()[0], "in a program", "one call of 40 lines differs from the lines' own code"), []).append(
+                    (badline or "?", o, got[pos_:pos_ + 40], "alone: " + (res[(o, badline.encode())][1] if badline else "?") + " ; program: " + " / ".join(grp[:12])))
+                break
     if cx.prop == "C05":
         # far-memory targets: the width of the far pointer (REX.W) is a matter of the mnemonic and the size keyword, never of the address
         # registers — every `call far` / `jmp far` line with the same keyword carries the same REX.W
@@ -2444,7 +2538,8 @@ def check_enc(cx):
 
 
 ENC_THEOREMS = {
-    "C01": ["AL.Properties.Sweep.c01_sweep", "AL.Properties.C01.nop_table_decodes", "AL.Properties.C01.no_operand_lines", "AL.Properties.C01.letter_case_irrelevant", "AL.Properties.C01.regpair_fields"],
+    "C01": ["AL.Properties.C01.every_register_form", "AL.Properties.Kernel.c01_every_instance", "AL.Properties.Kernel.checkK_sound", "AL.Properties.Kernel.cell_ok",
+            "AL.Properties.Sweep.c01_sweep", "AL.Properties.C01.nop_table_decodes", "AL.Properties.C01.no_operand_lines", "AL.Properties.C01.letter_case_irrelevant", "AL.Properties.C01.regpair_fields"],
     "C02": ["AL.Properties.Sweep.c02_sweep", "AL.Properties.Sweep.c02_sweep_mixed", "AL.Properties.C02.disp_field_reads_back", "AL.Properties.C02.decoder_reads_every_operand", "AL.Properties.C02.mov_load_every_disp", "AL.Properties.C02.mov_load_text", "AL.Lemmas.MemText.mem_line", "AL.Lemmas.MemLoad.mem_bytes", "AL.Lemmas.MemLoad.memBytes_canonical", "AL.Spec.X86.leVal_assembleConst", "AL.Spec.X86.toSigned_roundtrip",
             "AL.Properties.C11.swap_same_address", "AL.Properties.C11.nobase_scale2_same_address", "AL.Properties.C11.nobase_scale1_same_address"],
     "C03": ["AL.Properties.Sweep.c03_sweep", "AL.Properties.C03.written_number_value", "AL.Properties.C03.written_number_value_padded", "AL.Properties.C03.imm_field_reads_back", "AL.Properties.C03.imm_field_dword", "AL.Properties.C03.imm_field_qword",
@@ -2471,6 +2566,8 @@ OS_HARMLESS = {"free", "fprintf", "printf", "puts", "putchar", "perror", "stderr
                "strlen", "strncpy", "strstr", "strtok_r", "strtoul", "tolower", "__stack_chk_fail", "_GLOBAL_OFFSET_TABLE_", "__errno_location",
                "fputc", "fputs", "putc", "snprintf", "memcmp", "strncmp", "__ctype_tolower_loc", "__ctype_b_loc"}
 FAULT_SCENARIOS = ["create_int", "create_ext", "growth", "file", "file_count", "binfile"]
+# histories of three file calls on one instance (short, long, short): judged against the property directly, not against the model
+FAULT_FILE_HISTORIES = ["file3", "file3_count"]
 # a refused growth in chunk-fitting / counting mode: the room check after the NOP padding is a growth point of its own, reached only
 # for chunk sizes and alignments where the padding carries the position over the threshold
 FAULT_GROWTH_BIG = ["growthbigfit:16", "growthbigcount:16", "growthbigfit:9", "growthbigcount:7"]
@@ -2512,6 +2609,7 @@ def run_fault(exe, sc, kind, k, tmpdir, err=None):
     env.pop("FAULT_ERRNO", None)
     if err is not None:
         env["FAULT_ERRNO"] = str(err)
+    env["ASAN_OPTIONS"] = "detect_leaks=0:allocator_may_return_null=1"
     p = subprocess.run([exe, sc, kind, str(k), tmpdir], stdout=subprocess.PIPE, stderr=subprocess.PIPE, timeout=120, env=env)
     out = p.stdout.decode("latin1")
     kv = {}
@@ -2626,6 +2724,9 @@ def check_C17(cx):
               not unknown, json.dumps(unknown))
     wrap = "-Wl," + ",".join("--wrap=" + w for w in WRAPPED)
     impl = build_impl(cx, name="faultdrv", flavour="plain", extra_flags=(wrap,))
+    # the histories of several file calls also run under AddressSanitizer: what a refused call leaves dangling (a released buffer that is
+    # used or released again by a later call or by destroy) is an abort there, whatever the allocator happens to do with the block
+    impl_asan = build_impl(cx, name="faultdrv", flavour="asan", extra_flags=(wrap,))
     if not impl:
         return finish(cx, "")
     tmpdir = os.path.join(alv.CACHE, "faulttmp")
@@ -2633,7 +2734,7 @@ def check_C17(cx):
     nsched = nfired = 0
     fired_by_kind = collections.Counter()
     samples = []
-    for sc in FAULT_SCENARIOS + FAULT_GROWTH_BIG + FAULT_GROWTH_FAR + (FAULT_GROWTH_MODES if cx.tier == "thorough" else FAULT_GROWTH_MODES[::2]):
+    for sc in FAULT_SCENARIOS + FAULT_FILE_HISTORIES + FAULT_GROWTH_BIG + FAULT_GROWTH_FAR + (FAULT_GROWTH_MODES if cx.tier == "thorough" else FAULT_GROWTH_MODES[::2]):
         rc, ended, base, err = run_fault(impl, sc, "none", 0, tmpdir)
         if rc != 0 or not ended:
             cx.violations.append({"kind": "crash", "scenario": sc, "fault": "none", "rc": rc, "stderr": err, "what": "scenario crashes without any fault"})
@@ -2651,7 +2752,7 @@ def check_C17(cx):
             scheds.append(("shortread", 1, None))
         for kind, k, errno_ in scheds:
             nsched += 1
-            rc, ended, kv, err = run_fault(impl, sc, kind, k, tmpdir, errno_)
+            rc, ended, kv, err = run_fault(impl_asan if (sc in FAULT_FILE_HISTORIES and impl_asan) else impl, sc, kind, k, tmpdir, errno_)
             tag = {"scenario": sc, "fault": kind, "occurrence": k}
             if errno_ is not None:
                 tag["errno"] = errno_
@@ -2685,6 +2786,10 @@ def check_C17(cx):
                     bad = "the refused call is not reported by the documented return value"
                 elif kind == "malloc" and k == 2 and kv.get("asm2") != "1":
                     bad = "the refused allocation is not reported by the documented return value"
+                elif sc in FAULT_FILE_HISTORIES and kind == "malloc" and k >= 2 and fired == 1 and kv.get("asm2") != "1":
+                    bad = "the refused allocation of a later file call is not reported by the documented return value"
+                elif sc in FAULT_FILE_HISTORIES and kv.get("others_ok") != "1":
+                    bad = "a file call in whose course nothing was refused fails or gives other code than the same text through asm_assemble_str"
                 elif kind in ("fopen", "fwrite", "fclose") and kv.get("bin") != "1":
                     bad = "the refused file operation is not reported by asm_create_bin_file"
                 elif "asm2" in kv and kv["asm2"] == "1" and kv.get("off2") != kv.get("offb", kv.get("off1")):
@@ -2692,6 +2797,8 @@ def check_C17(cx):
             if bad:
                 cx.violations.append({"kind": "fault", **tag, "observed": kv, "what": bad})
             # correspondence with the model
+            if sc in FAULT_FILE_HISTORIES:
+                continue
             exp = model_fault(sc, kind, k, counts)
             diff = {key: (exp[key], kv.get(key)) for key in exp if key not in ("file_null",) and str(exp[key]) != str(kv.get(key))}
             if diff:
@@ -2963,6 +3070,13 @@ def check_C19(cx):
         files.append(("bad%d" % n, content_of(r.choice([30, 200, page, page + 5]), True, bad=True)))
     for n in range(8 if quick else 60):
         files.append(("prog%d" % n, g.program(r.choice([3, 10, 40]))))
+    # physical lines far longer than any block a reader could use (4096, 8192, 65536 bytes): a comment, a run of blanks inside an
+    # instruction, a comment-only line in front of code — only a line's SIGNIFICANT characters are limited
+    for n, L in enumerate((4090, 4096, 4100, 8192, 8200) if quick else (4000, 4090, 4095, 4096, 4097, 4100, 8191, 8192, 8193, 8200, 12288, 65536, 70000)):
+        files.append(("longc%d" % n, b"nop ;" + b"a" * L + b"\nret\n"))
+        files.append(("longs%d" % n, b"mov rax," + b" " * L + b"rbx\nret"))
+        files.append(("longo%d" % n, b";" + b"x" * (L - 1) + b"ret\nnop\n"))
+        files.append(("longm%d" % n, b"nop\n" * 7 + b"add rax, rcx ; " + b"c" * L + b"\n" + b"push r12\n" * 5))
     files = [(nm, bytes(x for x in c if x != 0)) for nm, c in files]
     hists, meta = [], []
     for fi, (nm, content) in enumerate(files):
